@@ -22,8 +22,13 @@ for d in sorted(glob.glob(f'{root}/seeded/*/')):
     if not os.path.exists(mp): continue
     m=json.load(open(mp)); P=m['property']; rel=os.path.relpath(d+'patch.diff',root)
     r=res.get(f'{P}:{rel}')
+    if not (r and r['status']=='CAUGHT'):
+        # caught by another property's check? (run explicitly: ./selfcheck <other> quick <patch>)
+        for k,v in res.items():
+            if v['patch']==rel and v['status']=='CAUGHT':
+                r=dict(v); break
     if r and r['status']=='CAUGHT':
-        m['detected_by']=[{'check':f'./check {P} quick','signature':r['signature']}]
+        m['detected_by']=[{'check':f"./check {r['property']} quick",'signature':r['signature']}]
     elif r:
         m['detected_by']=[]; m['missed_by']=f'./check {P} quick ({r["status"]})'
     json.dump(m,open(mp,'w'),indent=1)
@@ -31,7 +36,8 @@ for d in sorted(glob.glob(f'{root}/seeded/*/')):
 out=['| seeded change | needs, in order to manifest | quick check | catching signature |','|---|---|---|---|']
 for P,name,needs,r in rows:
     st='not run yet' if not r else ('**CAUGHT**' if r['status']=='CAUGHT' else '**MISSED**')
-    out.append(f"| `{name}` | {needs} | `./check {P} quick`: {st} | {('`'+r['signature']+'`') if r and r['signature'] else ''} |")
+    chk=r['property'] if r else P
+    out.append(f"| `{name}` | {needs} | `./check {chk} quick`: {st} | {('`'+r['signature']+'`') if r and r['signature'] else ''} |")
 # mutants summary per property
 mut={}
 for k,v in res.items():
